@@ -508,7 +508,7 @@ class ReceiveV3(V3Unit):
                           "puresnmp.util:localise_key", "puresnmp.pdu:PDU.decode_raw")
         hashname, priv = LEVELS[level]
         if mode == "authentic-minimal":
-            self.props = ("C10",) + (("C11",) if priv else ())
+            self.props = ("C10", "C06") + (("C11",) if priv else ())
         elif mode == "any-error":
             self.props = ("C08", "C20") + (("C11",) if priv and encrypted else ())
         else:
@@ -632,11 +632,11 @@ class ReceiveV3(V3Unit):
                     [n], z3.Implies(z3.And(n >= 0, n != 127), w.f_len_x690(n) == w.f_len_min(n))))
                 rt.theory.note("x690.util.encode_length(n) is the minimal BER length for every n >= 0 except n == 127 "
                                "(verified from the x690 source by the EncodeLength unit; 127 is finding D9)")
-            chk(("C10",), T, "ensures", "an-authentic-minimal-BER-response-of-the-users-level-is-accepted", exc is None,
+            chk(("C10", "C06"), T, "ensures", "an-authentic-minimal-BER-response-of-the-users-level-is-accepted", exc is None,
                 known=lens127, finding="D9")
             if exc is None:
                 vbs = content.fields.get("varbinds")
-                chk(("C10", "C11"), T, "ensures", "and-decoded-to-the-bindings-sent",
+                chk(("C10", "C11", "C06"), T, "ensures", "and-decoded-to-the-bindings-sent",
                     isinstance(vbs, list) and len(vbs) == self.k and And(
                         *[And(interp.eq(vbs[i][0], oids[i]), interp.eq(vbs[i][1], vals[i])) for i in range(len(vbs))]))
             if use_priv:
